@@ -235,7 +235,7 @@ func (i *interpreter) fmtValue(fr *frame, v value, t types.Type, verb byte, dept
 		}
 		return "0xc000010000"
 	case rtype:
-		return x.t.String()
+		return rtypeString(x)
 	}
 	panic(stop{kind: "unsupported", msg: fmt.Sprintf("fmt of %T", v)})
 }
